@@ -88,6 +88,24 @@ def run_impl(base: int, n: int, init: list, ops: list[tuple[str, object]]):
                     r, b = snap()
                     outs.append(('ERR:RegexError ' + r, b))
                     continue
+            elif name == 'rsubl':
+                # reflected difference: a plain iterable on the left
+                before_u = list(u.codepoints)
+                r = (list(arg) if len(arg) % 2 else tuple(arg)) - u
+                if r is u or list(u.codepoints) != before_u or r.codepoints is u.codepoints:
+                    outs.append((impl_list_str(r.codepoints) + '!operand-mutated-or-aliased', ''))
+                    break
+                u = r
+            elif name in ('iorself', 'isubself', 'iandself', 'ixorself'):
+                # the operand is the subset itself (aliasing of the list that is being edited)
+                if name == 'iorself':
+                    u |= u
+                elif name == 'isubself':
+                    u -= u
+                elif name == 'iandself':
+                    u &= u
+                else:
+                    u ^= u
             elif name in ('upd', 'dupd'):
                 entries, as_string = arg
                 val = render_subset_string(entries) if as_string else list(entries)
@@ -152,6 +170,8 @@ def argstr(name, arg) -> str:
         return lstr(arg[0])
     if name in ('upds', 'dupds'):
         return '.'.join(str(ord(c)) for c in arg) or '.'
+    if name.endswith('self'):
+        return '_'
     return lstr(arg)
 
 
@@ -262,8 +282,12 @@ def gen_case(rng, quick=True):
             # of entries, or with the equivalent character-subset string
             entries = [gen_entry(rng, base, n) for _ in range(rng.randint(0, 6))]
             ops.append((rng.choice(['upd', 'upd', 'dupd']), (entries, stringable and rng.random() < 0.5)))
-        elif r < 0.88:
+        elif r < 0.87:
             ops.append(('copyclear', gen_entry(rng, base, n)))
+        elif r < 0.89:
+            ops.append((rng.choice(['iorself', 'isubself', 'iandself', 'ixorself']), None))
+        elif r < 0.91:
+            ops.append(('rsubl', [gen_entry(rng, base, n) for _ in range(rng.randint(0, 6))]))
         else:
             name = rng.choice(['ior', 'isub', 'iand', 'ixor', 'bor', 'bsub', 'band', 'bxor'])
             ops.append((name, gen_canon_list(rng, base, n, rng.choice([0.05, 0.2, 0.5]))))
@@ -288,6 +312,10 @@ CORPUS = [
     (40, 24, [], [('upds', '0-9+-/'), ('dupds', '\\-1'), ('upds', '9-0'), ('upds', '(-*.-0'), ('upds', '-+'), ('dupds', '3-5-')]),
     (40, 88, [], [('upds', '0-\\\\\\['), ('dupds', 'Z-\\\\'), ('upds', 'a-b--c'), ('upds', '\\a'), ('upds', '['),
                   ('upds', 'a[b'), ('dupds', '\\[-\\]'), ('upds', 'P-\\'), ('upds', 'a-\\d'), ('upds', '^-a-')]),   # F13g, lenient zone
+    (0, 16, [1, (3, 6), 8, (10, 13)], [('isubself', None)]),
+    (0, 16, [1, (3, 6), 8, (10, 13)], [('iorself', None), ('iandself', None), ('ixorself', None)]),
+    (48, 8, [50], [('rsubl', [49, 50, 51])]),                                            # F13h
+    (48, 8, [50, (52, 54)], [('rsubl', [(49, 54), 50, (48, 50)])]),
     (97, 24, [(97, 120)], [('ixorl', [(97, 100)]), ('iandl', [(100, 110), 99]), ('iorl', [98, (97, 99)]), ('isubl', [(105, 120), 104])]),
 ]
 
@@ -509,10 +537,27 @@ def translate_tables(run: Run) -> dict:
            'import EPV.Model.UnicodeSubset', 'namespace EPV.Gen.C13', 'open EPV.USet', '',
            f'def unicodeVersion : String := "{us.unicode_version()}"',
            f'def unidataVersion : String := "{unicodedata.unidata_version}"', '']
+    # the tables the package builds itself from `unicodedata` when a version older than the shipped
+    # data is installed (categories_fallback.get_unicodedata_categories, reached through
+    # UnicodeData('12.1.0')): they must equal the oracle too
+    import warnings as _w2
+    with _w2.catch_warnings():
+        _w2.simplefilter('ignore')
+        fb_data = us.UnicodeData('12.1.0')
+    fb = {}
+    for k in names:
+        try:
+            fb[k] = list(fb_data.categories[k].codepoints) if hasattr(fb_data, 'categories') \
+                else list(fb_data._categories[k].codepoints)
+        except Exception:
+            fb[k] = []
     for k in names:
         lean_def(f'impl_{k}', cats[k], out)
         lean_def(f'oracle_{k}', oracle[k], out)
+        lean_def(f'fallback_{k}', fb[k], out)
     out.append('')
+    out.append('def fallbackTables : List (String × List CP) := [' +
+               ', '.join(f'("{k}", fallback_{k})' for k in names) + ']')
     out.append('def implTables : List (String × List CP) := [' +
                ', '.join(f'("{k}", impl_{k})' for k in names) + ']')
     out.append('def oracleTables : List (String × List CP) := [' +
@@ -553,6 +598,14 @@ def translate_tables(run: Run) -> dict:
                     lo, hi = (c, c + 1) if isinstance(c, int) else c
                     a ^= set(range(lo, hi))
             diffs.append((k, sorted(a)[:3]))
+    for k in names:
+        if fb[k] != oracle[k]:
+            a = set()
+            for l in (fb[k], oracle[k]):
+                for c in l:
+                    lo, hi = (c, c + 1) if isinstance(c, int) else c
+                    a ^= set(range(lo, hi))
+            diffs.append((k + ' (fallback builder, UnicodeData(12.1.0))', sorted(a)[:3] or ['representation']))
     info['python_side_table_diffs'] = diffs
     ov = []
     for v, bl in hist + [('installed', [l for _, l in blocks])]:
